@@ -157,7 +157,25 @@ func runC12(ctx *h.Ctx) int {
 		}
 		k.Count("accepted_pairs", 1)
 		if res.Out != res2.Out {
-			k.Violation("", "output differs from the program with every poryswitch replaced by its selected case", map[string]interface{}{"with_poryswitch": res.Out, "manual_selection": res2.Out, "manual_source": src2, "switches": prog.Switches})
+			det := map[string]interface{}{"with_poryswitch": res.Out, "manual_selection": res2.Out, "manual_source": src2, "switches": prog.Switches}
+			msg := "output differs from the program with every poryswitch replaced by its selected case"
+			differs := func() bool {
+				rp2, err := spec.Resolve(prog, prog.Switches)
+				if err != nil {
+					return false
+				}
+				a, b := h.Compile(spec.Source(prog), optsOf(prog, opt)), h.Compile(spec.Source(rp2), optsOf(rp2, opt))
+				return a.OK() && b.OK() && a.Out != b.Out
+			}
+			if differs() {
+				shrinkProgram(prog, differs, 300)
+				if rp2, err := spec.Resolve(prog, prog.Switches); err == nil {
+					a, b := h.Compile(spec.Source(prog), optsOf(prog, opt)), h.Compile(spec.Source(rp2), optsOf(rp2, opt))
+					det["minimal_source"], det["minimal_with_poryswitch"], det["minimal_manual_selection"] = spec.Source(prog), a.Out, b.Out
+					msg += "\nreduced witness (switches " + fmt.Sprint(prog.Switches) + "):\n" + spec.Source(prog) + "\n--- compiled:\n" + a.Out + "\n--- manual selection compiled:\n" + b.Out
+				}
+			}
+			k.Violation("", msg, det)
 			return
 		}
 		k.Nontrivial(np, len(res.Out)%97, shapeOfBlock(firstBody(rp)))
